@@ -3094,7 +3094,7 @@ static void MakeCode_M16(void) {
     int z;
 
     DOpSize = AttrPartOpSize;
-    for (z = 1; z <= ArgCnt; OpSize[z++] = eSymbolSizeUnknown)
+    for (z = 1; (z <= ArgCnt) && (z < 5); OpSize[z++] = eSymbolSizeUnknown)
         ;
 
     /* zu ignorierendes */
